@@ -137,6 +137,8 @@ func init() {
 			{Name: "distance", TShards: 4, Run: c17Distance},
 			{Name: "long", QShards: 4, TShards: 12, Run: c17Long},
 			{Name: "parallel", Race: true, Run: mashParallel},
+			firstCallUnit(firstMash),
+			{Name: "motifs", TShards: 4, Run: c17Motifs},
 			{Name: "fromjaccard", Run: c17FromJaccard},
 		},
 	})
@@ -485,6 +487,75 @@ func c17Long(c *Ctx) {
 			k.Count("long_sequences_checked", 1)
 			k.Count("variants_checked", 2)
 			k.Nontrivial([]byte(fmt.Sprint(size, kk, l)), seq[:64])
+		})
+	}
+}
+
+// c17Motifs: sequences built around the motifs on which strand normalisation
+// is decided late or not at all — perfect inverted repeats (hairpins: an arm,
+// one middle base, the arm's reverse complement), even-length reverse
+// palindromes, tandem repeats, homopolymer and N runs — with k chosen so that
+// a k-mer spans exactly the motif (odd k up to 129, arms longer than any prefix
+// a comparison might shortcut on). Random DNA contains none of these.
+func c17Motifs(c *Ctx) {
+	n := c.N(300, 6000)
+	for i := 0; i < n; i++ {
+		c.Case(int64(i), func(k *K) {
+			r := k.Rand()
+			h := &hashOracle{memo: map[string]uint64{}}
+			arm := pick(r, []int{1, 2, 7, 15, 16, 31, 32, 33, 40, 63, 64})
+			armSeq := genDNA(r, arm)
+			if r.IntN(6) == 0 {
+				armSeq = bytes.Repeat([]byte{pick(r, []byte("ACGTN"))}, arm)
+			}
+			var motif []byte
+			kk := 0
+			switch i % 4 {
+			case 0, 1: // hairpin, odd k
+				mid := pick(r, []byte("ACGTNacgtn"))
+				motif = append(append(append([]byte{}, armSeq...), mid), refRevComp(armSeq)...)
+				kk = 2*arm + 1
+			case 2: // reverse palindrome, even k
+				motif = append(append([]byte{}, armSeq...), refRevComp(armSeq)...)
+				kk = 2 * arm
+			default: // tandem repeat of a short unit, any k
+				unit := genDNA(r, 1+r.IntN(4))
+				motif = bytes.Repeat(unit, 3+(2*arm)/len(unit))
+				kk = 1 + r.IntN(2*arm+1)
+			}
+			if r.IntN(3) == 0 && kk > 2 {
+				kk -= 2 * r.IntN(min(3, kk/2)) // a k-mer inside the motif, sharing its centre
+			}
+			left, right := genDNA(r, r.IntN(60)), genDNA(r, r.IntN(60))
+			seq := append(append(append([]byte{}, left...), motif...), right...)
+			if r.IntN(2) == 0 {
+				seq = refRevComp(seq) // the other strand first
+			}
+			size := pick(r, []int{1, 3, 1000})
+			seqs := [][]byte{seq}
+			k.Input("n", size)
+			k.Input("k", kk)
+			k.Input("motif", motif)
+			k.Input("seqs", func() string { return seqsString(seqs) })
+			want := refSketch(h, size, kk, seqs)
+			got := append([]uint64{}, mash.Sequences(size, kk, seq).View()...)
+			if !sameU64(got, want) {
+				k.Failf("sketch", "Sequences(%d,%d,...) on a sequence built around the motif %.80q = %v, brute-force bottom-%d of the canonical k-mers is %v", size, kk, motif, got, size, want)
+				return
+			}
+			rc := mash.Sequences(size, kk, refRevComp(seq)).View()
+			if !sameU64(rc, want) {
+				k.Failf("sketch-variant", "the sketch of the reverse complement differs: %v vs %v", rc, want)
+				return
+			}
+			if d := mash.Distance(mash.Sequences(size, kk, seq), mash.Sequences(size, kk, refRevComp(bytes.ToLower(seq))), kk); len(want) == size && d != 0 {
+				k.Failf("distance-identical", "Distance between a sequence and its lower-case reverse complement = %v, want 0", d)
+				return
+			}
+			k.Count("sketches_checked", 2)
+			k.Count("motif_cases", 1)
+			k.Evals(2)
+			k.Nontrivial(seq, []byte{byte(kk), byte(size)})
 		})
 	}
 }
